@@ -1,25 +1,36 @@
 (* C19 — invalid inputs are rejected with ValueError instead of being solved; valid inputs are accepted.
    ONLY property theorems (closed by [exact]), their assumptions, and non-vacuity examples.
-   Model: Validate.v — per exported graph/model class X a transcription [validate_X] of the validation path
-   (constructor + solve(), checks in code order) and the documented domain [in_domain_X].  The validators
-   are hand-written summaries (thin tie): what relates them to /repo is the malformed-stream correspondence
+   Model: Validate.v — per exported graph/model class X a transcription [validate_X] of the validation path of the CURRENT
+   code (constructor + solve(), checks in code order, /repo at 65c87ad) and the documented domain [in_domain_X].  The
+   validators are hand-written summaries (thin tie): what relates them to /repo is the malformed-stream correspondence
    harness/engines/c19.py.  The value of the theorems is the exhaustive case analysis in_domain <-> validate.
 
    For every class:   validate_sound     RaiseValueError => outside the documented domain
-                      validate_complete  outside the domain => RaiseValueError, under [deviates_X i = false],
-                                         a disjunction naming exactly the known deviations of the pinned code
+                      validate_complete  outside the domain => RaiseValueError; unconditional for stDAG, stDiGraph,
+                                         NodeExpandedDiGraph, MinErrorFlow; otherwise under [deviates_X i = false], which names
+                                         exactly what is still OPEN: all weighted elements ignored (DESIGN #24, outside the
+                                         property's clause), a non-iterable item in an edge-list constraint of a node-weighted
+                                         model, a non-conserving flow for the cyclic flow decompositions, and an empty k-loop
+                                         of the Min* classes (only with a caller-supplied lower bound above |E|)
                       accepts_domain     inside the domain (+ a live weighted element) => Accept
-   and for every disjunct of deviates_X a [_refuted] witness: the faithful model is NOT fail-closed there. *)
+   ValidateOld.v / ValidateOldRefuted.v keep the model of the code BEFORE the repairs (a068bcc) and the witnesses that it was
+   not fail-closed; those [old_..._refuted] theorems are about explicitly named old-behaviour functions. *)
 From Coq Require Import List Bool ZArith QArith.
 Import ListNotations.
-From FP Require Import Validate ValidateProofs ValidateProofs2 ValidateProofs3 ValidateProofs4.
+From FP Require Import Validate ValidateProofs ValidateProofs2 ValidateProofs3.
+From FP Require ValidateOld ValidateOldRefuted.
 Local Close Scope Q_scope.
 
 (* The property at full strength, per class: fail-closed with ValueError outside the documented domain, and
    acceptance inside it whenever at least one non-ignored weighted element exists. *)
-Definition C19_full_statement (c : cls) : Prop := full_statement c.
-Definition C19_full_statement_unfolded (c : cls) : Prop :=
+Definition C19_full_statement (c : cls) : Prop :=
   forall i, (in_domain c i = false -> validate c i = RaiseValueError) /\
+            (in_domain c i = true -> has_live i = true -> validate c i = Accept).
+(* the same for inputs on which the abstraction's two side conditions hold (the k-loop of a Min* class runs; no
+   node-mode edge-list constraint contains a non-iterable item) *)
+Definition C19_full_statement_regular (c : cls) : Prop :=
+  forall i, regular i = true ->
+            (in_domain c i = false -> validate c i = RaiseValueError) /\
             (in_domain c i = true -> has_live i = true -> validate c i = Accept).
 
 (* ---------------------------------------------------------------- stDAG *)
@@ -40,7 +51,7 @@ Theorem C19_validate_sound_stDiGraph : forall i, validate_stDiGraph i = RaiseVal
 Proof. exact validate_sound_stDiGraph. Qed.
 Print Assumptions C19_validate_sound_stDiGraph.
 
-Theorem C19_validate_complete_stDiGraph : forall i, in_domain_stDiGraph i = false -> deviates_stDiGraph i = false -> validate_stDiGraph i = RaiseValueError.
+Theorem C19_validate_complete_stDiGraph : forall i, in_domain_stDiGraph i = false -> validate_stDiGraph i = RaiseValueError.
 Proof. exact validate_complete_stDiGraph. Qed.
 Print Assumptions C19_validate_complete_stDiGraph.
 
@@ -144,7 +155,7 @@ Theorem C19_validate_sound_MinErrorFlow : forall i, validate_MinErrorFlow i = Ra
 Proof. exact validate_sound_MinErrorFlow. Qed.
 Print Assumptions C19_validate_sound_MinErrorFlow.
 
-Theorem C19_validate_complete_MinErrorFlow : forall i, in_domain_MinErrorFlow i = false -> deviates_MinErrorFlow i = false -> validate_MinErrorFlow i = RaiseValueError.
+Theorem C19_validate_complete_MinErrorFlow : forall i, in_domain_MinErrorFlow i = false -> validate_MinErrorFlow i = RaiseValueError.
 Proof. exact validate_complete_MinErrorFlow. Qed.
 Print Assumptions C19_validate_complete_MinErrorFlow.
 
@@ -166,7 +177,7 @@ Proof. exact accepts_domain_kFlowDecompCycles. Qed.
 Print Assumptions C19_accepts_domain_kFlowDecompCycles.
 
 (* ---------------------------------------------------------------- MinFlowDecompCycles *)
-Theorem C19_validate_sound_MinFlowDecompCycles : forall i, has_live i = true -> nat_st i = true -> no_extra i = true -> validate_MinFlowDecompCycles i = RaiseValueError -> in_domain_MinFlowDecompCycles i = false.
+Theorem C19_validate_sound_MinFlowDecompCycles : forall i, has_live i = true -> no_extra i = true -> validate_MinFlowDecompCycles i = RaiseValueError -> in_domain_MinFlowDecompCycles i = false.
 Proof. exact validate_sound_MinFlowDecompCycles. Qed.
 Print Assumptions C19_validate_sound_MinFlowDecompCycles.
 
@@ -174,7 +185,7 @@ Theorem C19_validate_complete_MinFlowDecompCycles : forall i, in_domain_MinFlowD
 Proof. exact validate_complete_MinFlowDecompCycles. Qed.
 Print Assumptions C19_validate_complete_MinFlowDecompCycles.
 
-Theorem C19_accepts_domain_MinFlowDecompCycles : forall i, in_domain_MinFlowDecompCycles i = true -> has_live i = true -> search_enters i = true -> nat_st i = true -> no_extra i = true -> validate_MinFlowDecompCycles i = Accept.
+Theorem C19_accepts_domain_MinFlowDecompCycles : forall i, in_domain_MinFlowDecompCycles i = true -> has_live i = true -> search_enters i = true -> no_extra i = true -> validate_MinFlowDecompCycles i = Accept.
 Proof. exact accepts_domain_MinFlowDecompCycles. Qed.
 Print Assumptions C19_accepts_domain_MinFlowDecompCycles.
 
@@ -218,7 +229,7 @@ Proof. exact accepts_domain_kPathCoverCycles. Qed.
 Print Assumptions C19_accepts_domain_kPathCoverCycles.
 
 (* ---------------------------------------------------------------- MinPathCoverCycles *)
-Theorem C19_validate_sound_MinPathCoverCycles : forall i, nat_st i = true -> validate_MinPathCoverCycles i = RaiseValueError -> in_domain_MinPathCoverCycles i = false.
+Theorem C19_validate_sound_MinPathCoverCycles : forall i, validate_MinPathCoverCycles i = RaiseValueError -> in_domain_MinPathCoverCycles i = false.
 Proof. exact validate_sound_MinPathCoverCycles. Qed.
 Print Assumptions C19_validate_sound_MinPathCoverCycles.
 
@@ -226,87 +237,62 @@ Theorem C19_validate_complete_MinPathCoverCycles : forall i, in_domain_MinPathCo
 Proof. exact validate_complete_MinPathCoverCycles. Qed.
 Print Assumptions C19_validate_complete_MinPathCoverCycles.
 
-Theorem C19_accepts_domain_MinPathCoverCycles : forall i, in_domain_MinPathCoverCycles i = true -> search_enters i = true -> nat_st i = true -> validate_MinPathCoverCycles i = Accept.
+Theorem C19_accepts_domain_MinPathCoverCycles : forall i, in_domain_MinPathCoverCycles i = true -> search_enters i = true -> validate_MinPathCoverCycles i = Accept.
 Proof. exact accepts_domain_MinPathCoverCycles. Qed.
 Print Assumptions C19_accepts_domain_MinPathCoverCycles.
 
-(* ---------------------------------------------------------------- full statement: holds / refuted *)
+(* ---------------------------------------------------------------- the property at full strength *)
 Theorem C19_full_stDAG : C19_full_statement CstDAG.
 Proof. exact full_stDAG. Qed.
 Print Assumptions C19_full_stDAG.
+
+Theorem C19_full_stDiGraph : C19_full_statement CstDiGraph.
+Proof. exact full_stDiGraph. Qed.
+Print Assumptions C19_full_stDiGraph.
+
 Theorem C19_full_NodeExpandedDiGraph : C19_full_statement CNodeExpandedDiGraph.
 Proof. exact full_NodeExpandedDiGraph. Qed.
 Print Assumptions C19_full_NodeExpandedDiGraph.
 
-(* the faithful model of the pinned code violates the full statement for every other class; the witnesses
-   below are replayed on the implementation by the engine (known_findings.json keys in parentheses) *)
-Theorem C19_full_statement_refuted : forall c, c <> CstDAG -> c <> CNodeExpandedDiGraph -> ~ C19_full_statement c.
+Theorem C19_full_MinErrorFlow : C19_full_statement CMinErrorFlow.
+Proof. exact full_MinErrorFlow. Qed.
+Print Assumptions C19_full_MinErrorFlow.
+
+Theorem C19_full_regular_kPathCover : C19_full_statement_regular CkPathCover.
+Proof. exact full_regular_kPathCover. Qed.
+Print Assumptions C19_full_regular_kPathCover.
+
+Theorem C19_full_regular_MinPathCover : C19_full_statement_regular CMinPathCover.
+Proof. exact full_regular_MinPathCover. Qed.
+Print Assumptions C19_full_regular_MinPathCover.
+
+Theorem C19_full_regular_kPathCoverCycles : C19_full_statement_regular CkPathCoverCycles.
+Proof. exact full_regular_kPathCoverCycles. Qed.
+Print Assumptions C19_full_regular_kPathCoverCycles.
+
+Theorem C19_full_regular_MinPathCoverCycles : C19_full_statement_regular CMinPathCoverCycles.
+Proof. exact full_regular_MinPathCoverCycles. Qed.
+Print Assumptions C19_full_regular_MinPathCoverCycles.
+
+(* what is still open refutes the statement for the weighted classes: DESIGN #24 (every weighted element ignored ->
+   OverflowError before k / coverage are looked at) and the non-conserving flow of the cyclic flow decompositions *)
+Theorem C19_full_statement_refuted : forall c,
+  In c [CkFlowDecomp; CMinFlowDecomp; CkMinPathError; CkLeastAbsErrors; CkFlowDecompCycles; CMinFlowDecompCycles;
+        CkMinPathErrorCycles; CkLeastAbsErrorsCycles] -> ~ C19_full_statement_regular c.
 Proof. exact full_statement_refuted. Qed.
 Print Assumptions C19_full_statement_refuted.
 
-(* stDiGraph:source-sink-test-fooled:single-char-node-names (DESIGN #20) *)
-Theorem C19_validate_stDiGraph_refuted : exists i, in_domain_stDiGraph i = false /\ validate_stDiGraph i = Accept.
-Proof. exact validate_stDiGraph_refuted. Qed.
-Print Assumptions C19_validate_stDiGraph_refuted.
-Theorem C19_validate_kFlowDecompCycles_refuted_fooled :
-  exists i, in_domain_kFlowDecompCycles i = false /\ validate_kFlowDecompCycles i = RaiseOther ECrash.
-Proof. exact validate_kFlowDecompCycles_refuted_fooled. Qed.
-Print Assumptions C19_validate_kFlowDecompCycles_refuted_fooled.
-(* kFlowDecomp._get_solution_with_greedy:KeyError|TypeError:unvalidated-constraints (DESIGN #21) *)
-Theorem C19_validate_kFlowDecomp_refuted_absent_edge :
-  exists i, in_domain_kFlowDecomp i = false /\ validate_kFlowDecomp i = RaiseOther EKey.
-Proof. exact validate_kFlowDecomp_refuted_absent_edge. Qed.
-Print Assumptions C19_validate_kFlowDecomp_refuted_absent_edge.
-Theorem C19_validate_kFlowDecomp_refuted_malformed_item :
+(* ---------------------------------------------------------------- open deviations of the current code: witnesses *)
+(* DESIGN #24, note *)
+Theorem C19_validate_kFlowDecomp_refuted_all_ignored :
+  exists i, in_domain_kFlowDecomp i = false /\ validate_kFlowDecomp i = RaiseOther EOverflow.
+Proof. exact validate_kFlowDecomp_refuted_all_ignored. Qed.
+Print Assumptions C19_validate_kFlowDecomp_refuted_all_ignored.
+(* NodeExpandedDiGraph._get_expanded_subpath_constraints_edges:TypeError:non-tuple-item *)
+Theorem C19_validate_kFlowDecomp_refuted_non_tuple_item :
   exists i, in_domain_kFlowDecomp i = false /\ validate_kFlowDecomp i = RaiseOther EType.
-Proof. exact validate_kFlowDecomp_refuted_malformed_item. Qed.
-Print Assumptions C19_validate_kFlowDecomp_refuted_malformed_item.
-(* AbstractPathModelDAG:accepted:coverage-out-of-range-without-constraints *)
-Theorem C19_validate_kFlowDecomp_refuted_coverage :
-  exists i, in_domain_kFlowDecomp i = false /\ validate_kFlowDecomp i = Accept.
-Proof. exact validate_kFlowDecomp_refuted_coverage. Qed.
-Print Assumptions C19_validate_kFlowDecomp_refuted_coverage.
-(* NodeExpandedDiGraph.get_expanded_subpath_constraints:IndexError:first-constraint-empty *)
-Theorem C19_validate_kFlowDecomp_refuted_empty_constraint :
-  exists i, in_domain_kFlowDecomp i = false /\ validate_kFlowDecomp i = RaiseOther EIndex.
-Proof. exact validate_kFlowDecomp_refuted_empty_constraint. Qed.
-Print Assumptions C19_validate_kFlowDecomp_refuted_empty_constraint.
-(* Min-models:validation-skipped:empty-k-range (consequence of DESIGN #1) *)
-Theorem C19_validate_MinFlowDecomp_refuted_empty_search :
-  exists i, in_domain_MinFlowDecomp i = false /\ validate_MinFlowDecomp i = AcceptsButUnsolved.
-Proof. exact validate_MinFlowDecomp_refuted_empty_search. Qed.
-Print Assumptions C19_validate_MinFlowDecomp_refuted_empty_search.
-Theorem C19_accepts_domain_MinFlowDecomp_refuted_empty_search :
-  exists i, in_domain_MinFlowDecomp i = true /\ has_live i = true /\ validate_MinFlowDecomp i = AcceptsButUnsolved.
-Proof. exact accepts_domain_MinFlowDecomp_refuted_empty_search. Qed.
-Print Assumptions C19_accepts_domain_MinFlowDecomp_refuted_empty_search.
-(* kLeastAbsErrors:UnboundLocalError:k<=0, kMinPathError:UnboundLocalError:k<=0 (DESIGN #17); k-models:TypeError:non-integer-k *)
-Theorem C19_validate_kLeastAbsErrors_refuted_k0 :
-  exists i, in_domain_kLeastAbsErrors i = false /\ validate_kLeastAbsErrors i = RaiseOther EUnboundLocal.
-Proof. exact validate_kErrDAG_refuted_k0. Qed.
-Print Assumptions C19_validate_kLeastAbsErrors_refuted_k0.
-Theorem C19_validate_kMinPathError_refuted_k0 :
-  exists i, in_domain_kMinPathError i = false /\ validate_kMinPathError i = RaiseOther EUnboundLocal.
-Proof. exact validate_kErrDAG_refuted_k0. Qed.
-Print Assumptions C19_validate_kMinPathError_refuted_k0.
-Theorem C19_validate_kMinPathError_refuted_k_float :
-  exists i, in_domain_kMinPathError i = false /\ validate_kMinPathError i = RaiseOther EType.
-Proof. exact validate_kErrDAG_refuted_k_float. Qed.
-Print Assumptions C19_validate_kMinPathError_refuted_k_float.
-Theorem C19_validate_kFlowDecompCycles_refuted_k_float :
-  exists i, in_domain_kFlowDecompCycles i = false /\ validate_kFlowDecompCycles i = RaiseOther EType.
-Proof. exact validate_kFlowDecompCycles_refuted_k_float. Qed.
-Print Assumptions C19_validate_kFlowDecompCycles_refuted_k_float.
-(* kPathCover:accepted-unsolved:k<=0 (DESIGN #17) *)
-Theorem C19_validate_kPathCover_refuted_k0 :
-  exists i, in_domain_kPathCover i = false /\ validate_kPathCover i = AcceptsButUnsolved.
-Proof. exact validate_kPathCover_refuted_k0. Qed.
-Print Assumptions C19_validate_kPathCover_refuted_k0.
-(* MinErrorFlow:accepted:non-string-nodes-in-cyclic-graph *)
-Theorem C19_validate_MinErrorFlow_refuted_nonstring_cyclic :
-  exists i, in_domain_MinErrorFlow i = false /\ validate_MinErrorFlow i = Accept.
-Proof. exact validate_MinErrorFlow_refuted_nonstring_cyclic. Qed.
-Print Assumptions C19_validate_MinErrorFlow_refuted_nonstring_cyclic.
+Proof. exact validate_kFlowDecomp_refuted_non_tuple_item. Qed.
+Print Assumptions C19_validate_kFlowDecomp_refuted_non_tuple_item.
 (* kFlowDecompCycles:unsolved-not-ValueError:non-conserving-flow (DESIGN #21) *)
 Theorem C19_validate_kFlowDecompCycles_refuted_nonconserving :
   exists i, in_domain_kFlowDecompCycles i = false /\ validate_kFlowDecompCycles i = AcceptsButUnsolved.
@@ -316,36 +302,107 @@ Theorem C19_validate_MinFlowDecompCycles_refuted_nonconserving :
   exists i, in_domain_MinFlowDecompCycles i = false /\ validate_MinFlowDecompCycles i = AcceptsButUnsolved.
 Proof. exact validate_MinFlowDecompCycles_refuted_nonconserving. Qed.
 Print Assumptions C19_validate_MinFlowDecompCycles_refuted_nonconserving.
-(* valid inputs that are rejected: MinPathCoverCycles/MinFlowDecompCycles:ValueError:lower-bound-ignores-additional-starts,
-   MinFlowDecompCycles:ValueError:node-mode-additional-starts *)
-Theorem C19_accepts_domain_MinPathCoverCycles_refuted_lowerbound_ignores_starts :
-  exists i, in_domain_MinPathCoverCycles i = true /\ validate_MinPathCoverCycles i = RaiseValueError.
-Proof. exact accepts_domain_MinPathCoverCycles_refuted_lowerbound_ignores_starts. Qed.
-Print Assumptions C19_accepts_domain_MinPathCoverCycles_refuted_lowerbound_ignores_starts.
+(* MinFlowDecompCycles:ValueError:node-mode-additional-starts *)
 Theorem C19_accepts_domain_MinFlowDecompCycles_refuted_node_mode_starts :
   exists i, in_domain_MinFlowDecompCycles i = true /\ has_live i = true /\ validate_MinFlowDecompCycles i = RaiseValueError.
 Proof. exact accepts_domain_MinFlowDecompCycles_refuted_node_mode_starts. Qed.
 Print Assumptions C19_accepts_domain_MinFlowDecompCycles_refuted_node_mode_starts.
 
+(* ---------------------------------------------------------------- old behaviour (code at a068bcc, repaired since) *)
+
+(* repaired by 59945c9 *)
+Theorem C19_old_validate_stDiGraph_refuted : exists i, ValidateOld.in_domain_stDiGraph i = false /\ ValidateOld.validate_stDiGraph i = ValidateOld.Accept.
+Proof. exact ValidateOldRefuted.old_validate_stDiGraph_refuted. Qed.
+Print Assumptions C19_old_validate_stDiGraph_refuted.
+
+(* repaired by 59945c9 *)
+Theorem C19_old_validate_kFlowDecompCycles_refuted_fooled : exists i, ValidateOld.in_domain_kFlowDecompCycles i = false /\ ValidateOld.validate_kFlowDecompCycles i = ValidateOld.RaiseOther ValidateOld.ECrash.
+Proof. exact ValidateOldRefuted.old_validate_kFlowDecompCycles_refuted_fooled. Qed.
+Print Assumptions C19_old_validate_kFlowDecompCycles_refuted_fooled.
+
+(* repaired by 92ea36c *)
+Theorem C19_old_validate_kFlowDecomp_refuted_absent_edge : exists i, ValidateOld.in_domain_kFlowDecomp i = false /\ ValidateOld.validate_kFlowDecomp i = ValidateOld.RaiseOther ValidateOld.EKey.
+Proof. exact ValidateOldRefuted.old_validate_kFlowDecomp_refuted_absent_edge. Qed.
+Print Assumptions C19_old_validate_kFlowDecomp_refuted_absent_edge.
+
+(* repaired by 92ea36c *)
+Theorem C19_old_validate_kFlowDecomp_refuted_malformed_item : exists i, ValidateOld.in_domain_kFlowDecomp i = false /\ ValidateOld.validate_kFlowDecomp i = ValidateOld.RaiseOther ValidateOld.EType.
+Proof. exact ValidateOldRefuted.old_validate_kFlowDecomp_refuted_malformed_item. Qed.
+Print Assumptions C19_old_validate_kFlowDecomp_refuted_malformed_item.
+
+(* repaired by c9173c7 *)
+Theorem C19_old_validate_kFlowDecomp_refuted_coverage : exists i, ValidateOld.in_domain_kFlowDecomp i = false /\ ValidateOld.validate_kFlowDecomp i = ValidateOld.Accept.
+Proof. exact ValidateOldRefuted.old_validate_kFlowDecomp_refuted_coverage. Qed.
+Print Assumptions C19_old_validate_kFlowDecomp_refuted_coverage.
+
+(* repaired by c9173c7 *)
+Theorem C19_old_validate_kFlowDecompCycles_refuted_coverage : exists i, ValidateOld.in_domain_kFlowDecompCycles i = false /\ ValidateOld.validate_kFlowDecompCycles i = ValidateOld.Accept.
+Proof. exact ValidateOldRefuted.old_validate_kFlowDecompCycles_refuted_coverage. Qed.
+Print Assumptions C19_old_validate_kFlowDecompCycles_refuted_coverage.
+
+(* repaired by 3d7a4b5 *)
+Theorem C19_old_validate_kFlowDecomp_refuted_empty_constraint : exists i, ValidateOld.in_domain_kFlowDecomp i = false /\ ValidateOld.validate_kFlowDecomp i = ValidateOld.RaiseOther ValidateOld.EIndex.
+Proof. exact ValidateOldRefuted.old_validate_kFlowDecomp_refuted_empty_constraint. Qed.
+Print Assumptions C19_old_validate_kFlowDecomp_refuted_empty_constraint.
+
+(* repaired by 2df6a3b *)
+Theorem C19_old_validate_kLeastAbsErrors_refuted_k0 : exists i, ValidateOld.in_domain_kLeastAbsErrors i = false /\ ValidateOld.validate_kLeastAbsErrors i = ValidateOld.RaiseOther ValidateOld.EUnboundLocal.
+Proof. exact ValidateOldRefuted.old_validate_kLeastAbsErrors_refuted_k0. Qed.
+Print Assumptions C19_old_validate_kLeastAbsErrors_refuted_k0.
+
+(* repaired by 2df6a3b *)
+Theorem C19_old_validate_kMinPathError_refuted_k0 : exists i, ValidateOld.in_domain_kMinPathError i = false /\ ValidateOld.validate_kMinPathError i = ValidateOld.RaiseOther ValidateOld.EUnboundLocal.
+Proof. exact ValidateOldRefuted.old_validate_kMinPathError_refuted_k0. Qed.
+Print Assumptions C19_old_validate_kMinPathError_refuted_k0.
+
+(* repaired by 2df6a3b *)
+Theorem C19_old_validate_kMinPathError_refuted_k_float : exists i, ValidateOld.in_domain_kMinPathError i = false /\ ValidateOld.validate_kMinPathError i = ValidateOld.RaiseOther ValidateOld.EType.
+Proof. exact ValidateOldRefuted.old_validate_kMinPathError_refuted_k_float. Qed.
+Print Assumptions C19_old_validate_kMinPathError_refuted_k_float.
+
+(* repaired by 2df6a3b *)
+Theorem C19_old_validate_kFlowDecompCycles_refuted_k_float : exists i, ValidateOld.in_domain_kFlowDecompCycles i = false /\ ValidateOld.validate_kFlowDecompCycles i = ValidateOld.RaiseOther ValidateOld.EType.
+Proof. exact ValidateOldRefuted.old_validate_kFlowDecompCycles_refuted_k_float. Qed.
+Print Assumptions C19_old_validate_kFlowDecompCycles_refuted_k_float.
+
+(* repaired by 2df6a3b *)
+Theorem C19_old_validate_kPathCover_refuted_k0 : exists i, ValidateOld.in_domain_kPathCover i = false /\ ValidateOld.validate_kPathCover i = ValidateOld.AcceptsButUnsolved.
+Proof. exact ValidateOldRefuted.old_validate_kPathCover_refuted_k0. Qed.
+Print Assumptions C19_old_validate_kPathCover_refuted_k0.
+
+(* repaired by 10a634a *)
+Theorem C19_old_validate_MinErrorFlow_refuted_nonstring_cyclic : exists i, ValidateOld.in_domain_MinErrorFlow i = false /\ ValidateOld.validate_MinErrorFlow i = ValidateOld.Accept.
+Proof. exact ValidateOldRefuted.old_validate_MinErrorFlow_refuted_nonstring_cyclic. Qed.
+Print Assumptions C19_old_validate_MinErrorFlow_refuted_nonstring_cyclic.
+
+(* repaired by 65c87ad *)
+Theorem C19_old_accepts_domain_MinPathCoverCycles_refuted_lowerbound_ignores_starts :
+  exists i, ValidateOld.in_domain_MinPathCoverCycles i = true /\ ValidateOld.validate_MinPathCoverCycles i = ValidateOld.RaiseValueError.
+Proof. exact ValidateOldRefuted.old_accepts_domain_MinPathCoverCycles_refuted_lowerbound_ignores_starts. Qed.
+Print Assumptions C19_old_accepts_domain_MinPathCoverCycles_refuted_lowerbound_ignores_starts.
+
 (* ---------------------------------------------------------------- non-vacuity *)
-(* a concrete well-formed input is in the domain of every DAG model and accepted; single violations of it are
-   outside the domain and rejected with ValueError by the model *)
 Example C19_nonvacuous_valid :
   in_domain_kFlowDecomp ex_dag = true /\ has_live ex_dag = true /\ deviates_kFlowDecomp ex_dag = false /\
   validate_kFlowDecomp ex_dag = Accept /\ validate_kLeastAbsErrors ex_dag = Accept /\ validate_MinFlowDecomp ex_dag = Accept /\
   in_domain_kFlowDecompCycles ex_graph = true /\ validate_kFlowDecompCycles ex_graph = Accept /\
-  validate_MinFlowDecompCycles ex_graph = Accept /\ validate_stDiGraph ex_graph = Accept.
+  validate_MinFlowDecompCycles ex_graph = Accept /\ validate_stDiGraph ex_graph = Accept /\ regular ex_dag = true.
 Proof. vm_compute. repeat split; reflexivity. Qed.
 Example C19_nonvacuous_invalid :
   let neg := set_elems ex_dag [neg_elem] true in
   let cyc := set_flags ex_dag false true true [true; true] in
   let nonstr := set_flags ex_dag true true true [true; false] in
   let k0 := set_k ex_dag (KInt 0) in
-  let cov0 := set_cons ex_dag [ {| c_is_list := true; c_items := [good_item]; c_greedy_ok := true |} ] 0%Q in
+  let kf := set_k ex_dag (KNonInt (5#2)) in
+  let cov0 := set_cons ex_dag [] 0%Q in
+  let absent := set_cons ex_dag [ {| c_is_list := true; c_items := [ {| it_kind := IPair; it_in_graph := false |} ] |} ] 1%Q in
   in_domain_kFlowDecomp neg = false /\ deviates_kFlowDecomp neg = false /\ validate_kFlowDecomp neg = RaiseValueError /\
-  in_domain_kFlowDecomp cyc = false /\ deviates_kFlowDecomp cyc = false /\ validate_kFlowDecomp cyc = RaiseValueError /\
+  in_domain_kFlowDecomp cyc = false /\ validate_kFlowDecomp cyc = RaiseValueError /\
   in_domain_kFlowDecomp nonstr = false /\ validate_kFlowDecomp nonstr = RaiseValueError /\
-  in_domain_kFlowDecomp k0 = false /\ validate_kFlowDecomp k0 = RaiseValueError /\
+  in_domain_kLeastAbsErrors k0 = false /\ validate_kLeastAbsErrors k0 = RaiseValueError /\
+  in_domain_kMinPathError kf = false /\ validate_kMinPathError kf = RaiseValueError /\ validate_kPathCover k0 = RaiseValueError /\
   in_domain_kFlowDecomp cov0 = false /\ deviates_kFlowDecomp cov0 = false /\ validate_kFlowDecomp cov0 = RaiseValueError /\
-  validate_stDiGraph (with_nosource ex_graph false) = RaiseValueError.
+  in_domain_kFlowDecomp absent = false /\ validate_kFlowDecomp absent = RaiseValueError /\
+  validate_stDiGraph (set_starts ex_graph false []) = RaiseValueError /\
+  validate_MinErrorFlow (set_flags ex_graph false true true [true; false]) = RaiseValueError.
 Proof. vm_compute. repeat split; reflexivity. Qed.
